@@ -113,17 +113,27 @@ Definition mutex_ok (l : log) : bool := mutex_scan l [].
    R3: a failing Lock fails with the time-out error no earlier than its wait
        time-out; a failing TryLock fails with the busy error *)
 Definition try_bound_ms : Z := 300.
+(* R3: a Lock call returns — acquired or failed — no later than its effective wait
+   time-out plus this slack; the effective wait time-out of a call is
+   min (the lock's wait time-out, the caller's own deadline): the harness emits it
+   per contender in the time-out list of the case *)
+Definition lock_slack_ms : Z := 300.
 
 Definition call_ret_ok (tmo : list Z) (l : log) (i : nat) : bool :=
   match find_pos (is_call i) l, op_of i l with
   | Some (_, t0), Some o =>
       match find (fun te => is_ret i (snd te)) l with
       | None => true                       (* still pending at the end of the log *)
-      | Some (t1, EEnter _) => match o with OpTry => Z.leb (t1 - t0) try_bound_ms | OpLock => true end
+      | Some (t1, EEnter _) =>
+          match o with
+          | OpTry => Z.leb (t1 - t0) try_bound_ms
+          | OpLock => Z.leb (t1 - t0) (nth i tmo 0 + lock_slack_ms)
+          end
       | Some (t1, EFail _ e) =>
           match o with
           | OpTry => ferr_eqb e FBusy && Z.leb (t1 - t0) try_bound_ms
           | OpLock => ferr_eqb e FTimeout && Z.leb (nth i tmo 0 - 2) (t1 - t0)
+                      && Z.leb (t1 - t0) (nth i tmo 0 + lock_slack_ms)
           end
       | _ => false
       end
